@@ -342,6 +342,10 @@ impl Scenario for TrioScn {
             if !c07 {
                 v.push(TAct::Underfunded { user: BOB.to_string(), what: "swap".to_string() });
                 v.push(TAct::Underfunded { user: BOB.to_string(), what: "provide".to_string() });
+                // a deposit whose third entry is not the pool's third asset (a token the pool does not hold / the first entry again);
+                // the first two entries are pool assets and are paid for
+                v.push(TAct::Underfunded { user: BOB.to_string(), what: "provide_third_entry_foreign".to_string() });
+                v.push(TAct::Underfunded { user: BOB.to_string(), what: "provide_first_entry_twice".to_string() });
             }
             if !c07 {
                 v.push(TAct::Swap { user: BOB.to_string(), from: 0, to: 2, amount: (res[0] / 100).max(2).to_string() });
@@ -491,6 +495,38 @@ impl Scenario for TrioScn {
                         &TrioExec::Swap { offer_asset: asset(&t.assets[0], declared), ask_asset: t.assets[1].clone(), belief_price: loose_belief(), max_spread: Some(Decimal::percent(50)), to: None },
                         &[coin(1, &denom0)],
                     )
+                } else if what == "provide_third_entry_foreign" || what == "provide_first_entry_twice" {
+                    let d = [declared, (res[1] / 10).max(2), (res[2] / 10).max(2)];
+                    let third = if what == "provide_third_entry_foreign" { AssetInfo::Token { contract_addr: "unrelatedtoken".to_string() } } else { t.assets[0].clone() };
+                    let assets = [asset(&t.assets[0], d[0]), asset(&t.assets[1], d[1]), asset(&third, d[2])];
+                    let mut funds = vec![];
+                    for (i, a) in t.assets.iter().enumerate().take(2) {
+                        match a {
+                            AssetInfo::NativeToken { denom } => funds.push(coin(d[i], denom)),
+                            AssetInfo::Token { contract_addr } => w.cw20_allow(contract_addr, user, &t.addr, d[i]),
+                        }
+                    }
+                    funds.sort_by(|a, b| a.denom.cmp(&b.denom));
+                    let r = w.exec(user, &t.addr, &TrioExec::ProvideLiquidity { assets, slippage_tolerance: None, receiver: None }, &funds);
+                    let ua: Vec<u128> = t.assets.iter().map(|a| info_balance(w, a, user)).collect();
+                    match &r {
+                        Ok(_) => {
+                            cx.count("underfunded:accepted");
+                            let gained_lp = w.cw20_balance(&t.lp, user) - lpb;
+                            cx.check("funds.declared_native_amount_was_attached", gained_lp == 0 || (0..3).all(|i| ub[i] - ua[i] == d[i]), || {
+                                format!("{}: deposit {:?} whose third entry is {:?} was accepted: user balances {:?} -> {:?}, LP +{}", what, d, third, ub, ua, gained_lp)
+                            });
+                        }
+                        Err(_) => {
+                            cx.count("underfunded:rejected");
+                            for a in t.assets.iter() {
+                                if let AssetInfo::Token { contract_addr } = a {
+                                    let _ = w.exec(user, contract_addr, &cw20::Cw20ExecuteMsg::DecreaseAllowance { spender: t.addr.clone(), amount: Uint128::new(u128::MAX), expires: None }, &[]);
+                                }
+                            }
+                        }
+                    }
+                    return;
                 } else {
                     let d = [declared, (res[1] / 10).max(2), (res[2] / 10).max(2)];
                     let assets = [asset(&t.assets[0], d[0]), asset(&t.assets[1], d[1]), asset(&t.assets[2], d[2])];
